@@ -144,6 +144,7 @@ extern "C" void h_CreateInstance()
     if (in_known && !in_dup && in_eq && in_objsev <= SEVERITY_WARNING) __CPROVER_assert(g_deleted_calls == 1, "an instance that could not be created properly is destroyed");
 }
 
+#ifdef VERIF_WITH_SUBSUPER
 /* C05: a complex record #n=( A() B() C() ... ) with any number of parts is read without writing outside the part-name array (scaled to 3
  * entries here: two names and the terminator) and the array handed on is null-terminated inside its bounds */
 extern "C" void h_CreateSubSuperInstance()
@@ -164,3 +165,4 @@ extern "C" void h_CreateSubSuperInstance()
     if (in_sev <= SEVERITY_WARNING) __CPROVER_assert(r == ENTITY_NULL && g_deleted_calls == 1 && e.severity() == (Severity)in_sev, "C03 an illegal combination yields no instance and its severity is handed to the caller");
     else __CPROVER_assert(r == g_cx_obj, "a legal combination yields the instance");
 }
+#endif
